@@ -2451,17 +2451,16 @@ func (r *repoT) branchHeads() map[string]dvid.UUID {
 // For all data tiers of storage, remove data kv pairs associated with this data instance.
 // This can be called asynchronously since it can be time-consuming.
 func (r *repoT) deleteData(data DataService) {
-	if err := storage.DeleteDataInstance(data); err != nil {
-		dvid.Errorf("Error trying to do async data instance deletion: %v\n", err)
-	}
-
 	// Delete entries in the sync graph if this data needs to be synced with another data instance.
 	_, syncable := data.(Syncer)
 	if syncable {
 		r.deleteSyncGraph(data, false)
 	}
 
-	// Remove this data instance from the repository and persist.
+	// Remove this data instance from the repository and persist BEFORE its key-values are deleted.
+	// The deleted flag lives in memory only, so if the process died while the key-values were going
+	// the instance came back at the next start with part of its data.  With the metadata saved first
+	// an interrupted deletion leaves at worst unreachable keys (instance ids are never reused).
 	r.Lock()
 	tm := time.Now()
 	r.updated = tm
@@ -2470,7 +2469,14 @@ func (r *repoT) deleteData(data DataService) {
 	r.log = append(r.log, message)
 	delete(r.data, data.DataName())
 	r.Unlock()
-	r.save()
+	if err := r.save(); err != nil {
+		dvid.Errorf("Error saving repo after removing data instance %q; its key-values are kept: %v\n", data.DataName(), err)
+		return
+	}
+
+	if err := storage.DeleteDataInstance(data); err != nil {
+		dvid.Errorf("Error trying to do async data instance deletion: %v\n", err)
+	}
 }
 
 func (r *repoT) passcodeOK(passcode string) bool {
